@@ -524,7 +524,9 @@ def make_tasks(tier, seed):
            dict(name='solar-class-equiangular', fn='task_solar_radiation_class', kw=dict(cfg=dict(M=2, L=3, nlon=6, nlat=6, spacing='equiangular', offset=0.5235987755982988), scale_name='default', normalized=False)),
            dict(name='held-suarez-rates', fn='task_held_suarez_rates', kw={}),
            dict(name='held-suarez-equilibrium', fn='task_held_suarez_equilibrium', kw={}),
-           dict(name='held-suarez-state', fn='task_held_suarez_state', kw=dict(cfg=dict(M=3, L=4, nlon=8, nlat=5), levels=LS['dy3'].tolist(), lname='dy3'))]
+           dict(name='held-suarez-state', fn='task_held_suarez_state', kw=dict(cfg=dict(M=3, L=4, nlon=8, nlat=5), levels=LS['dy3'].tolist(), lname='dy3')),
+           # levels refined towards the surface: more layer centres below sigma_b than an equidistant set of the same size would have
+           dict(name='held-suarez-state-surface-refined', fn='task_held_suarez_state', kw=dict(cfg=dict(M=2, L=3, nlon=6, nlat=4), levels=[0.0, 0.4, 0.72, 0.82, 0.9, 0.96, 1.0], lname='surface-refined-6'))]
   if tier != 'quick':
     tasks.append(dict(name='held-suarez-state-fast', fn='task_held_suarez_state', kw=dict(cfg=dict(M=4, L=5, nlon=12, nlat=6, impl='fast'), levels=LS['un4'].tolist(), lname='un4')))
   return tasks
